@@ -2023,14 +2023,17 @@ func (s *sim) finishCall() {
 			}
 		}
 		if len(servers) < 2 {
-			sig, self := "confirmed-without-witness", false
-			for _, n := range servers {
-				self = n >= 2
+			sig, self, who := "confirmed-without-witness", false, -1
+			for p, n := range servers {
+				self, who = n >= 2, p
 			}
-			if conflicting {
+			switch {
+			case self && who == primAfter:
+				sig = "confirmed-only-by-itself" // the provider is primary and witness at once
+			case self:
+				sig = "confirmed-only-by-demoted-primary" // it supplied the header as primary and vouched for it as witness
+			case conflicting:
 				sig = "confirmed-by-conflicting-witness"
-			} else if self {
-				sig = "confirmed-only-by-itself"
 			}
 			e.Fail("C09", sig, "call %s(h=%d): header %d (%s) became trusted although only %d provider(s) returned that header during the call (replies: %s)",
 				c.kind, c.h, h, hx(b.hash), len(servers), replySummary(c, h))
